@@ -22,6 +22,9 @@ import types
 ARG = {"arg0": "\\%arg0", "arg1": "\\%arg1", "arg2": "\\%arg2", "arg3": "\\%arg3", "arg4": "\\%arg4",
        "receiver": "\\%receiver", "target": "\\%target"}
 ARG_INV = {v: k for k, v in ARG.items()}
+# a target spelling that designates no operand of a generated sink (lian knows %arg0..%arg4, %receiver, %target)
+ARG["arg5"] = "\\%arg5"
+ARG_INV[ARG["arg5"]] = "arg5"
 
 SOURCE_KINDS = ["call", "method", "param", "field"]
 SINK_KINDS = ["call", "method", "fieldw", "recordw"]
@@ -462,7 +465,7 @@ DESCEND_LINKS = ["param", "param_kw", "closure", "method_param"]
 ASCEND_LINKS = ["return", "global_write", "nonlocal", "out_field", "global_import"]
 ALL_LINKS = INLINE_LINKS + BLOCK_LINKS + DESCEND_LINKS + ASCEND_LINKS
 ENDINGS = ["sink", "drop", "kill", "wrongpos", "unrel_field", "unrel_obj", "unrel_var", "const_callee",
-           "decoy_fieldw_prefix", "decoy_method_like_call"]
+           "decoy_fieldw_prefix", "decoy_method_like_call", "far_arg_receiver"]
 NEGATIVE_ENDINGS = [e for e in ENDINGS if e not in ("sink",)]
 
 
@@ -1259,6 +1262,15 @@ class Builder(object):
             self.add_snk_rule("fieldw", "snkobj.wr", "target")
             E("snkobj.wrx = %s" % v, tag=("snk", tid))
             self.sinks.append({"id": tid, "kind": "fieldw", "pos": "target", "chain": self.c, "at": at, "ending": end})
+        elif end == "far_arg_receiver":
+            # a method-call sink rule naming an argument the call does not have, on a call whose RECEIVER carries the value:
+            # the designated argument does not depend on the source (seed C11-m3: the shifted receiver position met the
+            # "no operand" position)
+            tid = len(self.sinks)
+            name = "%s.emit%s" % (v, str(tid) if self.uniq else "")
+            self.add_snk_rule("method", name, "arg5")
+            E("%s(5)" % name, tag=("snk", tid))
+            self.sinks.append({"id": tid, "kind": "method", "pos": "arg5", "chain": self.c, "at": at, "ending": end})
         elif end == "decoy_method_like_call":
             tid = len(self.sinks)
             self.add_snk_rule("call", "sink", "arg0")
